@@ -1,5 +1,296 @@
 package main
 
-import "verif/harness/hx"
+// Skeleton decoders of level/chunk.go and registry/network.go against the extracted model.  The
+// sub-decoders owned by other properties (NBT documents, palette containers) are answered by the
+// implementation itself: a reference walk over the layout (written from the protocol definition) finds
+// the offsets at which they are called, runs them there, and hands "consumed k bytes, ok/err" to the
+// model as oracle tables.  What is compared is the composition: outcome class and residual length.
 
-func skeletonCases(o *hx.Out) {}
+import (
+	"bytes"
+	"fmt"
+	"strings"
+
+	"github.com/Tnze/go-mc/level"
+	"github.com/Tnze/go-mc/nbt"
+	pk "github.com/Tnze/go-mc/net/packet"
+	"github.com/Tnze/go-mc/registry"
+	"verif/harness/hx"
+)
+
+type ans struct {
+	k  int
+	ok bool
+}
+
+func table(as []ans) string {
+	if len(as) == 0 {
+		return "-"
+	}
+	parts := make([]string, len(as))
+	for i, a := range as {
+		okc := 0
+		if a.ok {
+			okc = 1
+		}
+		parts[i] = fmt.Sprintf("%d.%d", a.k, okc)
+	}
+	return strings.Join(parts, ";")
+}
+
+// ask runs one sub-decoder of the implementation on b and reports what it consumed
+func ask(b []byte, f func(r *bytes.Reader) error) (a ans, panicked bool) {
+	rd := bytes.NewReader(b)
+	var err error
+	p := guarded("oracle "+cut(hx.Hex(b), 200), func() { err = f(rd) })
+	return ans{len(b) - rd.Len(), err == nil && p == ""}, p != ""
+}
+
+func askRaw(b []byte) (ans, bool) {
+	return ask(b, func(r *bytes.Reader) error { var raw nbt.RawMessage; _, err := pk.NBT(&raw).ReadFrom(r); return err })
+}
+
+func askSections(data []byte, nsec int) (st, bi []ans, bad bool) {
+	q := 0
+	for i := 0; i < nsec; i++ {
+		if q+2 > len(data) {
+			return
+		}
+		q += 2
+		a, p := ask(data[q:], func(r *bytes.Reader) error {
+			_, err := level.NewStatesPaletteContainer(16*16*16, 0).ReadFrom(r)
+			return err
+		})
+		st = append(st, a)
+		if p {
+			return st, bi, true
+		}
+		if !a.ok {
+			return
+		}
+		q += a.k
+		a, p = ask(data[q:], func(r *bytes.Reader) error {
+			_, err := level.NewBiomesPaletteContainer(4*4*4, 0).ReadFrom(r)
+			return err
+		})
+		bi = append(bi, a)
+		if p {
+			return st, bi, true
+		}
+		if !a.ok {
+			return
+		}
+		q += a.k
+	}
+	return
+}
+
+func chunkCase(o *hx.Out, cat string, nsec int, b []byte) {
+	var hmv struct {
+		MotionBlocking []uint64 `nbt:"MOTION_BLOCKING"`
+		WorldSurface   []uint64 `nbt:"WORLD_SURFACE"`
+	}
+	hma, bad := ask(b, func(r *bytes.Reader) error { _, err := pk.NBT(&hmv).ReadFrom(r); return err })
+	if bad {
+		return // a panic inside the NBT decoder belongs to the hostile stream (class C08.panic.nbt.*)
+	}
+	lenOf := func(x []uint64) string {
+		if x == nil {
+			return "n"
+		}
+		return fmt.Sprint(len(x))
+	}
+	var bes, st, bi []ans
+	if hma.ok {
+		p := hma.k
+		var data []byte
+		func() {
+			l, w, ok := parseVarint(b, p)
+			if !ok || l < 0 || p+w+int(l) > len(b) {
+				return
+			}
+			data = b[p+w : p+w+int(l)]
+			p += w + int(l)
+			cnt, w, ok := parseVarint(b, p)
+			if !ok || cnt < 0 {
+				return
+			}
+			p += w
+			for j := 0; j < int(cnt) && p+3 <= len(b); j++ {
+				p += 3
+				_, w, ok := parseVarint(b, p)
+				if !ok {
+					return
+				}
+				p += w
+				a, pn := askRaw(b[p:])
+				if pn {
+					bad = true
+					return
+				}
+				bes = append(bes, a)
+				if !a.ok {
+					return
+				}
+				p += a.k
+			}
+		}()
+		if bad {
+			return
+		}
+		var b2 bool
+		st, bi, b2 = askSections(data, nsec)
+		if b2 {
+			return
+		}
+	}
+	rd := bytes.NewReader(b)
+	var err error
+	p := guarded("chunk "+cut(hx.Hex(b), 300), func() { _, err = level.EmptyChunk(nsec).ReadFrom(rd) })
+	hok := 0
+	if hma.ok {
+		hok = 1
+	}
+	o.Case("chunk."+cat, len(b) >= 2,
+		fmt.Sprintf("chunk %d %d %d %s %s %s %s %s %s", nsec, hma.k, hok, lenOf(hmv.MotionBlocking), lenOf(hmv.WorldSurface),
+			table(bes), table(st), table(bi), hx.Hex(b)),
+		"chunk "+outcome(p, err, rd.Len()))
+	if p != "" {
+		o.Fail("C08.panic.chunk", "sections=%d input=%s panic=%s", nsec, cut(hx.Hex(b), 600), cut(p, 160))
+	}
+}
+
+func putDataCase(o *hx.Out, cat string, nsec int, b []byte) {
+	st, bi, bad := askSections(b, nsec)
+	if bad {
+		return
+	}
+	var err error
+	p := guarded("putdata "+cut(hx.Hex(b), 300), func() { err = level.EmptyChunk(nsec).PutData(b) })
+	o.Case("putdata."+cat, len(b) >= 2, fmt.Sprintf("putdata %d %s %s %s", nsec, table(st), table(bi), hx.Hex(b)),
+		"putdata "+outcome(p, err, 0))
+	if p != "" {
+		o.Fail("C08.panic.putdata", "sections=%d input=%s panic=%s", nsec, cut(hx.Hex(b), 600), cut(p, 160))
+	}
+}
+
+func blockEntityCase(o *hx.Out, cat string, b []byte) {
+	var tab []ans
+	if len(b) >= 3 {
+		if _, w, ok := parseVarint(b, 3); ok {
+			a, bad := askRaw(b[3+w:])
+			if bad {
+				return
+			}
+			tab = append(tab, a)
+		}
+	}
+	rd := bytes.NewReader(b)
+	var err error
+	p := guarded("blockentity "+cut(hx.Hex(b), 300), func() { var e level.BlockEntity; _, err = e.ReadFrom(rd) })
+	o.Case("be."+cat, len(b) >= 2, fmt.Sprintf("be %s %s", table(tab), hx.Hex(b)), "be "+outcome(p, err, rd.Len()))
+	if p != "" {
+		o.Fail("C08.panic.blockentity", "input=%s panic=%s", cut(hx.Hex(b), 600), cut(p, 160))
+	}
+}
+
+func registryCase(o *hx.Out, cat string, b []byte) {
+	var tab []ans
+	bad := false
+	func() {
+		cnt, w, ok := parseVarint(b, 0)
+		if !ok {
+			return
+		}
+		p := w
+		for i := 0; i < int(cnt) && p < len(b); i++ {
+			l, w, ok := parseVarint(b, p)
+			if !ok || l < 0 || p+w+int(l) >= len(b) {
+				return
+			}
+			p += w + int(l)
+			has := b[p] != 0
+			p++
+			if !has {
+				tab = append(tab, ans{0, true})
+				continue
+			}
+			a, pn := ask(b[p:], func(r *bytes.Reader) error {
+				var data nbt.RawMessage
+				_, err := pk.NBTField{V: &data, AllowUnknownFields: true}.ReadFrom(r)
+				return err
+			})
+			if pn {
+				bad = true
+				return
+			}
+			tab = append(tab, a)
+			if !a.ok {
+				return
+			}
+			p += a.k
+		}
+	}()
+	if bad {
+		return
+	}
+	rd := bytes.NewReader(b)
+	var err error
+	p := guarded("registry "+cut(hx.Hex(b), 300), func() {
+		reg := registry.NewRegistry[nbt.RawMessage]()
+		_, err = reg.ReadFrom(rd)
+	})
+	o.Case("reg."+cat, len(b) >= 2, fmt.Sprintf("reg %s %s", table(tab), hx.Hex(b)), "reg "+outcome(p, err, rd.Len()))
+	if p != "" {
+		o.Fail("C08.panic.registry", "input=%s panic=%s", cut(hx.Hex(b), 600), cut(p, 160))
+	}
+}
+
+func skeletonCases(o *hx.Out) {
+	// chunks of 0, 1, 2 and 4 sections, filled and empty, and height maps of right and wrong sizes
+	for _, nsec := range []int{0, 1, 2, 4} {
+		for _, fill := range []bool{true, false} {
+			v := enc(sampleChunk(nsec, fill))
+			mutations(o.R, v, 1<<14, 50, func(kind string, b []byte) { chunkCase(o, kind, nsec, b) })
+			// a chunk written for nsec sections read into a chunk of another height
+			chunkCase(o, "othersize", nsec+1, v)
+			if nsec > 0 {
+				chunkCase(o, "othersize", nsec-1, v)
+			}
+		}
+	}
+	hm := func(mb, ws any) []byte {
+		m := map[string]any{}
+		if mb != nil {
+			m["MOTION_BLOCKING"] = mb
+		}
+		if ws != nil {
+			m["WORLD_SURFACE"] = ws
+		}
+		return enc(pk.NBT(m), pk.ByteArray(nil), pk.VarInt(0), pk.VarInt(0), pk.VarInt(0), pk.VarInt(0), pk.VarInt(0), pk.VarInt(0), pk.VarInt(0))
+	}
+	for _, nsec := range []int{0, 1, 4, 24} {
+		for _, l := range []int{0, 1, 3, 4, 5, 21, 22, 23, 29, 30, 36, 37, 38, 52, 256} {
+			chunkCase(o, "heightmap", nsec, hm(make([]int64, l), nil))
+			chunkCase(o, "heightmap", nsec, hm(nil, make([]int64, l)))
+			chunkCase(o, "heightmap", nsec, hm(make([]int64, 37), make([]int64, l)))
+		}
+		chunkCase(o, "heightmap", nsec, hm(nil, nil))
+		chunkCase(o, "heightmap", nsec, hm([]int32{1, 2}, "x"))
+	}
+	ch := sampleChunk(3, true)
+	data, _ := ch.Data()
+	for _, nsec := range []int{0, 1, 3, 4} {
+		nsec := nsec
+		mutations(o.R, data, 1<<14, 40, func(kind string, b []byte) { putDataCase(o, kind, nsec, b) })
+	}
+	for i := range ch.BlockEntity {
+		mutations(o.R, enc(ch.BlockEntity[i]), 1<<14, 60, func(kind string, b []byte) { blockEntityCase(o, kind, b) })
+	}
+	regValid := enc(pk.VarInt(3), pk.Identifier("a"), pk.Boolean(true), pk.NBT(map[string]any{"k": int32(1), "s": "v"}),
+		pk.Identifier("minecraft:b"), pk.Boolean(false), pk.Identifier(""), pk.Boolean(true), pk.NBT(map[string]any{}))
+	mutations(o.R, regValid, 1<<14, 80, func(kind string, b []byte) { registryCase(o, kind, b) })
+	for _, c := range []int32{-1, -1 << 31, 0, 1, 1<<31 - 1} {
+		registryCase(o, "count", append(varint(c), regValid[1:]...))
+	}
+}
